@@ -151,7 +151,7 @@ static void runPar(bool hints, int n, uint64_t seed, int sw, const std::vector<s
     vsched::Scheduler S;
     S.rng = vsched::Rng(seed);
     S.switchPercent = sw;
-    S.maxSteps = 2000000;
+    S.maxSteps = 100000;
     std::vector<std::string> res(n);
     std::vector<std::function<void()>> bodies;
     for (int i = 0; i < n; ++i) {
